@@ -1,3 +1,4 @@
+use std::collections::HashSet;
 use std::fs::{File, hard_link, read_dir, remove_file, rename};
 use std::ops::Bound;
 use std::path::PathBuf;
@@ -63,6 +64,20 @@ impl WriteBatch {
             timestamp,
             value: None,
         });
+    }
+
+    /// Retain only the last write to each key.  Every entry of a batch is applied at the same
+    /// timestamp, so an earlier write to a key would be indistinguishable from the last one.
+    fn retain_last_write_per_key(&mut self) {
+        let mut seen: HashSet<Vec<u8>> = HashSet::with_capacity(self.entries.len());
+        let mut idx = self.entries.len();
+        while idx > 0 {
+            idx -= 1;
+            // Walking backwards, the first sighting of a key is its last write.
+            if !seen.insert(self.entries[idx].key.clone()) {
+                self.entries.remove(idx);
+            }
+        }
     }
 }
 
@@ -333,6 +348,7 @@ impl KeyValueStore {
     }
 
     pub fn write(&self, mut batch: WriteBatch) -> Result<(), SError> {
+        batch.retain_last_write_per_key();
         let (mut wait_guard, memtable, log) = {
             let mut state = self.state.lock().unwrap();
             let wait_guard = self.wait_list.link(());
